@@ -99,7 +99,7 @@ fn kmer_parent<A: SxK>(k: usize, out: &mut Out) {
 /// `full`, else both coordinates restricted to within 2 of an end or of a
 /// machine-word boundary.
 fn positions<A: Codec>(n: usize, full: bool) -> Vec<usize> {
-    if n <= 12 || full {
+    if n <= 12 || (full && n <= 200) {
         return (0..=n).collect();
     }
     if n > 2000 {
